@@ -133,10 +133,20 @@ impl Sim {
         for i in 0..24 {
             names.ghosts.push(api.addr_make(&format!("ghost{}", i)).to_string());
         }
+        // ... and a few addresses that are valid on ANOTHER chain (the next address prefix): here they are invalid
+        let foreign = MockApiBech32::new(PREFIXES[(case.prefix as usize + 1) % PREFIXES.len()]);
+        for i in 0..3 {
+            names.ghosts.push(foreign.addr_make(&format!("ghost{}", i)).to_string());
+        }
         names.denoms.push("TOKEN".to_string());
         for i in 1..n_den {
             // the third denomination differs from the second one only in the case of its letters
-            names.denoms.push(if i == 2 { "DENOM1".to_string() } else { format!("denom{}", i) });
+            // ... and the fourth is none a real chain would accept (two bytes, leading digit)
+            names.denoms.push(match i {
+                2 => "DENOM1".to_string(),
+                3 => "1z".to_string(),
+                _ => format!("denom{}", i),
+            });
         }
         for i in 0..n_val {
             names.validators.push(api.addr_make(&format!("validator{}", i)).to_string());
